@@ -264,6 +264,8 @@ fn bytes_strategy(m: &vcore::fmodel::FormatModel, ty: Ty, o: &OptModel) -> Boxed
         })
         .boxed();
     prop_oneof![
+        // unmutated valid numbers reach the deep numeric paths (moderate / big-integer slow paths of every radix)
+        4 => valid.clone(),
         6 => mutated,
         3 => proptest::collection::vec(any::<u8>(), 0..24),
         1 => proptest::collection::vec(any::<u8>(), 24..300),
@@ -315,6 +317,10 @@ pub fn run_worker(ctx: &Ctx, rep: &mut Report, chunk: usize, nchunks: usize) {
         // every job has its own generator stream
         let mut ctx1 = ctx1.clone();
         ctx1.seed = mix(ctx.seed, &["c10-job", &ji.to_string()]);
+        // float parsers of the core group (every radix and mixed base: per-radix tables, Bellerophon, big-integer
+        // slow paths whose assertions / unwraps only trip for one radix and a band of exponents) get many more cases
+        let deep = matches!(j.ty, Ty::Float(_)) && cat().entries[j.entry].group == "core";
+        let per = if deep { per.max(ctx.n(20_000, 400_000)) } else { per };
         run_prop_jobs(
             rep,
             &ctx1,
